@@ -814,7 +814,7 @@ end Code
 
 /-! ## The methods of `TypedStore`, regenerated from the source
 
-`harness/c06/xlate_ts` translates the bodies of `TypedStore.Get/Has/Set/Delete/Iterate/DeletePrefix/Clear` of the working
+`harness/c06/xlate_ts` translates the bodies of all eight methods of `TypedStore` of the working
 tree into terms of `SCode.SStmt` (`Hive/Gen/C06_StoreCode.lean`). -/
 section StoreCode
 open Hive.Typed.SCode Hive.Gen.C06StoreCode
@@ -823,19 +823,22 @@ open Hive.Typed.SCode Hive.Gen.C06StoreCode
 operation (`Get/Has/Set/Delete` and `Iterate` with any prefix, direction and stopping callback), fault vector (store call,
 the store's own iteration failing after n entries, key / value encoder, decode positions) and store-error flavour (`w`:
 bare or wrapped, `ErrKeyNotFound` included), running the regenerated method body gives exactly the result, the resulting
-raw store and the call trace of the hand-written `sstep`; the bodies of `DeletePrefix` / `Clear` give `sdeletePrefix` /
-`sclear` — hence every `C06_store_*` theorem is a theorem about the code as translated.  For `Iterate` the consumer closure
+raw store and the call trace of the hand-written `sstep`; the body of `IterateKeys` (run at `V := Unit`) gives `siterateKeys`,
+the bodies of `DeletePrefix` / `Clear` give `sdeletePrefix` / `sclear` — hence every `C06_store_*` theorem is a theorem
+about the code as translated.  For `Iterate` the consumer closure
 is a term of its own, run once per entry by the underlying store's loop (`iterLoopC`); the proof shows that closure + loop +
 error plumbing (`innerErr`, `iterationErr`) are the hand-written `iterLoop` over the per-entry decode results
 (`Hive/Proofs/TypedStoreCode.lean`: `consumer_spec`, `iterLoopC_eq` by induction over the entries, `iterate_outer`).
 The obligation pins which variable every call result lands in and which is handed on (key bytes vs value bytes), which
 store method is called, which error variable every guard tests, what the closure assigns to the captured error and what
-it answers the store, and which value a `return` hands out.  (`IterateKeys`: hand-written model, skeleton, differential.) -/
+it answers the store, and which value a `return` hands out. -/
 theorem C06_store_code_refines_model {K V : Type} [Inhabited K] [Inhabited V] (KC : Codec K) (VC : Codec V) (m : Store) (F : SFaults) (w : Bool) :
     (∀ op, sexecOp w sprog KC VC m op F = sstep KC VC m op F) ∧
+    (∀ pfx bwd stop, sexecKeys w sprog KC m pfx bwd stop F = siterateKeys KC m pfx bwd stop F) ∧
     (∀ pfx, sexecPass w KC VC sprog.deletePrefix m pfx F = sdeletePrefix m pfx F) ∧
     (∀ pfx, sexecPass w KC VC sprog.clear m pfx F = sclear m F) :=
-  ⟨fun op => sexecOp_eq_sstep w KC VC m op F, fun pfx => scode_deletePrefix w KC VC m pfx F, fun pfx => scode_clear w KC VC m pfx F⟩
+  ⟨fun op => sexecOp_eq_sstep w KC VC m op F, fun pfx bwd stop => scode_iterateKeys w KC m pfx bwd stop F,
+   fun pfx => scode_deletePrefix w KC VC m pfx F, fun pfx => scode_clear w KC VC m pfx F⟩
 
 /-- Non-vacuity: the translated `Delete` on the variable-length key codec removes exactly the entry of that key, not
 the entries whose keys have its encoding as a prefix; the translated `Iterate` stops at the undecodable key and reports it. -/
